@@ -98,7 +98,13 @@ def rebuild_and_copy(ctx, T):
     from frappy.datatypes import get_datatype
     ctx.ev()
     case = {'kind': 'tree', 'T': T}
-    dt = specs.build(T)
+    if not rm.wellformed(T):
+        return
+    try:
+        dt = specs.build(T)
+    except Exception as e:   # noqa - a legal declaration (distinct names and codes, ordered limits) refused by the constructor
+        ctx.finding(f'declare:refused:{T["k"]}:{type(e).__name__}', case, f'{T!r}: {e!r}'[:300])
+        return
     if rm.depth(T) >= 1 or T.get('min') is not None or T.get('lo') is not None:
         ctx.nt(('tree', specs.tojson(T)))
     for k in rm.kinds(T):
@@ -168,7 +174,13 @@ def pair_check(ctx, TA, TB, how):
     from frappy.errors import BadValueError
     ctx.ev()
     case = {'kind': 'pair', 'TA': TA, 'TB': TB, 'how': how}
-    a, b = specs.build(TA), specs.build(TB)
+    if not (rm.wellformed(TA) and rm.wellformed(TB)):
+        return
+    try:
+        a, b = specs.build(TA), specs.build(TB)
+    except Exception as e:   # noqa
+        ctx.finding(f'declare:refused:{type(e).__name__}', {'kind': 'tree', 'T': TA}, f'{TA!r} / {TB!r}: {e!r}'[:300])
+        return
     ctx.label(f'pair:{how}', f'pairkinds:{TA["k"]}->{TB["k"]}')
     if TA != TB:
         ctx.nt(('pair', specs.tojson(TA), specs.tojson(TB)))
